@@ -26,7 +26,8 @@ CLAIM = {
             "parser under a Go and an XGo dialect, agreeing with BOTH real parsers on exhaustive small token sequences and seeded ones; "
             "theorem: every expression accepted by the Go dialect is parsed to the same tree by the XGo dialect (no side condition); "
             "for simple statements the same without the command-call rule or when the statement does not start with an identifier, and a "
-            "machine-checked refutation for the real dialect (ch <-v, f (x)). The rest of the grammar (declarations, types, compound "
+            "machine-checked refutation for the real dialect (ch <-v, f (x)); the model is total (explicit fuel bound 6*|tokens|+5, so its "
+            "expression / statement core terminates). The rest of the grammar (declarations, types, compound "
             "statements, literals) is explored by structural tree comparison on /repo, a GOROOT sample, crafted files and generated "
             "well-typed files incl. non-gofmt-ed whitespace variants.",
     "note": "Kernel theorem + explored remainder. The model covers identifiers, int literals, parentheses, unary/binary operators, "
